@@ -174,6 +174,11 @@ class SymCtx(_BaseCtx):
     def boolean(self, name):
         return self._reg(name, SB(z3.Bool(name)))
 
+    def fp32(self, name):
+        """a bit-exact IEEE single (z3 FloatingPoint) - only for the float32 lemmas"""
+        from . import fpv
+        return self._reg(name, fpv.FPV.fresh(name, 32))
+
     def array(self, name, shape, dtype='float64', nan=True, inf=False, lo=None, hi=None, integral=False):
         dt = _np.dtype(dtype)
         n = int(_np.prod(shape))
@@ -274,7 +279,11 @@ class SymCtx(_BaseCtx):
     def model_inputs(self, m):
         out = {}
         for k, v in self.inputs.items():
-            out[k] = sc.ev(m, v) if sc.is_sym(v) else v
+            if type(v).__name__ == 'FPV':
+                from . import fpv
+                out[k] = fpv.ev(m, v)
+            else:
+                out[k] = sc.ev(m, v) if sc.is_sym(v) else v
         return out
 
     def ev(self, m, v):
@@ -304,6 +313,9 @@ def _depends_on_uf(term):
 
 def ev_obs(m, x):
     """model value of an observed scalar, or None when it depends on an axiomatised libm stub"""
+    if type(x).__name__ == 'FPV':
+        from . import fpv
+        return fpv.ev(m, x)
     if isinstance(x, SF):
         for t in (x.nan, x.pinf, x.ninf, x.v):
             if not isinstance(t, bool) and _depends_on_uf(t):
@@ -324,9 +336,11 @@ def ev_any(m, v, obs=False):
             return [ev_any(m, x, True) for x in v]
         if isinstance(v, dict):
             return {str(k): ev_any(m, x, True) for k, x in v.items()}
-        return ev_obs(m, v) if sc.is_sym(v) else _jsonable(v)
+        return ev_obs(m, v) if (sc.is_sym(v) or type(v).__name__ == 'FPV') else _jsonable(v)
+    if type(v).__name__ == 'FPV':
+        return ev_obs(m, v)
     if isinstance(v, SymArray):
-        return [sc.ev(m, x) for x in v.flat_values()]
+        return [ev_obs(m, x) if type(x).__name__ == 'FPV' else sc.ev(m, x) for x in v.flat_values()]
     if isinstance(v, symxr.DataArray):
         return ev_any(m, v.values)
     if isinstance(v, (list, tuple)):
@@ -379,6 +393,9 @@ class ConcCtx(_BaseCtx):
 
     def boolean(self, name):
         return bool(self._get(name))
+
+    def fp32(self, name):
+        return sc.F(_np.float32(self._get(name)))
 
     def array(self, name, shape, dtype='float64', nan=True, inf=False, lo=None, hi=None, integral=False):
         dt = _np.dtype(dtype)
@@ -694,6 +711,9 @@ def run_check(prop_id, tier='quick', seed=0, budget_s=None, procs=None, replay_s
     sys.path.insert(0, VERIF)
     prop = importlib.import_module('props.' + prop_id)
     jobs = prop.jobs(tier, seed)
+    only = os.environ.get('VERIF_JOBS')          # development aid: substring filter; evidence then goes to a side directory
+    if only:
+        jobs = [j for j in jobs if only in j.get('name', '')]
     meta = getattr(prop, 'META', {})
     budget_s = budget_s or meta.get('budget_s', {}).get(tier, 150 if tier == 'quick' else 1500)
     procs = procs or int(os.environ.get('VERIF_PROCS', '16'))
@@ -902,13 +922,14 @@ def run_check(prop_id, tier='quick', seed=0, budget_s=None, procs=None, replay_s
           'assumptions': meta.get('assumptions', []), 'wall_s': round(wall, 2), 'violations': len(confirmed)}
     if unconfirmed:
         cov['unreproduced_detail'] = [{'label': u['label'], 'job': u['job'], 'status': u.get('replay_status')} for u in unconfirmed[:5]]
-    os.makedirs(os.path.join(VERIF, 'evidence'), exist_ok=True)
+    EVD = os.environ.get('VERIF_EVIDENCE_DIR') or os.path.join(VERIF, 'evidence-partial' if only else 'evidence')
+    os.makedirs(EVD, exist_ok=True)
     # source hashes are collected in child processes; recompute in the parent for the evidence
     try:
         cov['sources'] = source_hashes(meta.get('modules', []))
     except Exception:
         pass
-    with open(os.path.join(VERIF, 'evidence', prop_id + '.json'), 'w') as f:
+    with open(os.path.join(EVD, prop_id + '.json'), 'w') as f:
         json.dump(_jsonable_deep(ev), f, indent=1)
 
     out = []
